@@ -374,7 +374,16 @@ class Ldap:
         for kind in ('cellalloc', 'partition', 'app'):
             _cls, fields, lists = KINDS[kind]
             parts.append(cc.Explicit(kind + '.values', _value_cases(fields)))
-            if kind == 'app':
+            if kind == 'app' and tier == 'quick':
+                # quick: the 17-member lists are crossed with each other and
+                # one short list per field, not with the whole product
+                parts.append(cc.Product('app.lists',
+                                        [(f, m[:-1]) for f, m in lists]))
+                parts.append(cc.Product('app.many',
+                                        [(f, [m[2], m[-1]])
+                                         for f, m in lists]))
+                parts.append(self._subset_domain(kind, tier))
+            elif kind == 'app':
                 parts.append(cc.Product('app.lists', lists))
                 parts.append(self._subset_domain(kind, tier))
             else:
@@ -402,7 +411,10 @@ class Ldap:
             'every subset of size <=3 or >=16 of the 19 fields')
         out['cellalloc.subsets'] = 'every subset of 9 fields x assignments'
         out['partition.subsets'] = 'every subset of 8 fields x limits'
-        out['app.lists'] = 'full product of the 5 keyed-list menus'
+        out['app.lists'] = (
+            'full product of the 5 keyed-list menus' if tier != 'quick' else
+            'full product of the 5 keyed-list menus without their 17-member '
+            'entries, plus app.many = {one short list, 17 members}**5')
         out['update'] = {
             'cellalloc.old': [len(CA_OLD_SCALARS), len(CA_OLD_LISTS)],
             'cellalloc.new': [cc._short(x, 90) for x in CA_NEW],
@@ -419,7 +431,7 @@ class Ldap:
         _cls, fields, lists = KINDS[kind]
         if what == 'values' or (tag == 'app.subsets' and len(case) == 2):
             return kind, copy.deepcopy(case[1])
-        if what == 'lists':
+        if what in ('lists', 'many'):
             return kind, _obj_from([f for f, _m in lists], case[1:])
         names = [f for f, _v, _a in fields]
         if kind != 'app':
